@@ -5,7 +5,7 @@ from props import poolcommon as pc
 from props import C03 as worker
 
 MANIFEST = dict(
-    text='Theorems: a supervision pass that does not raise brings the worker list to exactly max(configured size, still-alive workers); a fresh in-range slot index always exists below size (pigeonhole) and is unused; workers are only started by supervision; an exit of a worker owning no unfinished job changes no job. History level (Proofs/PoolSize.v): in every reachable state the workers not being stopped number at most the configured size; a pass over a running pool whose reaped workers all left clean/recycled never fails, restores the size, leaves the limiter and every resolved job untouched; no exited worker is left in the pool list after any pass; slot indices are pairwise distinct in every reachable state. Refuted (known finding): no replacement after close().',
+    text='Theorems: a supervision pass that does not raise brings the worker list to exactly max(configured size, still-alive workers); a fresh in-range slot index always exists below size (pigeonhole) and is unused; workers are only started by supervision; an exit of a worker owning no unfinished job changes no job. History level (Proofs/PoolSize.v): in every reachable state the workers not being stopped number at most the configured size; a pass over a running pool whose reaped workers all left clean/recycled never fails, restores the size, leaves the limiter and every resolved job untouched; no exited worker is left in the pool list after any pass; slot indices are pairwise distinct in every reachable state. Refuted (known finding): no replacement after close(). Closed system with crashes (Model/PoolCrash.v): the worker list is at the configured size in every reachable state, whatever the schedule of kills, passes and results (C09_crash_pool_size_kept).',
     note='Trusted: Coq kernel; hand-written model Model/Pool.v validated on every run against the real billiard.pool parent-side code (harness/pool_driver.py: fake processes, fake clock, recorded signals); event-level atomicity; worker side and OS not modelled here (C03 covers the worker loop). Partial: per-worker quota (at most N jobs) is the worker loop (C03); map/imap spurious loss on recycling pools (D3) and close() stopping supervision (D19) are known findings.',
     technique='Coq proof (invariants by induction over all event histories of an executable pool model) + differential correspondence against the real parent-side code',
     ref='5.9',
@@ -15,11 +15,13 @@ FOCUS = {'exit': 10, 'tick': 14, 'grow': 3, 'shrink': 3, 'apply': 8, 'ack': 8}
 
 
 def run(res):
-    res.proof_step('Props/C09.v', extra_targets=['Model/Pool.vo', 'Model/Worker.vo'], kernels_needed=['G_pool_shape', 'K_worker', 'K_restart', 'G_pool_pins'])
+    res.proof_step('Props/C09.v', extra_targets=['Model/Pool.vo', 'Model/Worker.vo', 'Model/PoolCrash.vo'], kernels_needed=['G_pool_shape', 'K_worker', 'K_restart', 'G_pool_pins'])
     n = 150 if res.tier == 'quick' else 6000
     if res.broken:
         n = max(n, 1500)      # failing-input search on the implementation
     pc.pool_check(res, 'C09', n, focus=FOCUS)
+    # the closed system with crashes (Model/PoolCrash.v), schedules without the racy pass of the recorded C04 finding
+    pc.crash_closed_check(res, 'C09', 40 if res.tier == 'quick' else 800, allow_early=False)
     # the per-child task quota is the worker loop's business: the real Worker.workloop against
     # the worker model (quota, recycle status, what counts as an executed job)
     before = len(res.alarms)
